@@ -60,9 +60,10 @@ _dict_labels = [b"www", b"example", b"com", b"a", b"xn--a", b"xn--", b"xn--mnche
                 b"xn--Mnchen-3ya", b"xn--bcher-kva", b"xn--ab-ey5c", b"a.b", b"a.", b".", b"..", b".a", b"xn--a.b",
                 b"\xc3\xa9", b"\xff", b"\x00", b"a\x00b", b" ", b"xn--80akhbyknj4f", b"xn--0", b"xn--zz", b"xn---",
                 b"xn--" + b"a" * 59, b"a" * 63, b"xn--fa-hia", b"xn--nxasmq6b", b"XN--NXASMQ6B", b"xn--nxasmq6b.",
-                b"xn--\xc0\x0c", b"Xn--a", b"xn--A", b"xn--99zt52a", b"xn--a-0ga"]
+                b"xn--\xc0\x0c", b"Xn--a", b"xn--A", b"xn--99zt52a", b"xn--a-0ga", b"a" * 64, b"b" * 65, b"xn--" + b"a" * 60]
 _alabels = [R.alabel(l) for l in G.IDN_POOL]
 raw_label = st.one_of(
+    st.sampled_from(_dict_labels),
     st.sampled_from(_dict_labels),
     st.sampled_from(_alabels),
     st.tuples(st.sampled_from(_alabels), st.integers(0, 70), st.integers(0, 255)).map(
@@ -189,8 +190,8 @@ def strategy(ctx):
         packet.map(lambda b: {"k": "bytes", "b": b}),
         st.tuples(G.message(odd=False), st.lists(_mutation, min_size=0, max_size=4)).map(
             lambda t: {"k": "mut", "d": t[0], "m": t[1]}),
-        st.tuples(st.lists(raw_label, min_size=1, max_size=4), st.integers(-1, 40), st.booleans()).map(
-            lambda t: {"k": "labels", "l": [x[:63] for x in t[0]], "end": t[1], "rr": t[2]}),
+        st.tuples(st.lists(raw_label, min_size=1, max_size=4), st.one_of(st.just(-1), st.integers(-1, 40)), st.booleans()).map(
+            lambda t: {"k": "labels", "l": [x[:70] for x in t[0]], "end": t[1], "rr": t[2]}),
         st.tuples(_chain_n, st.sampled_from(["root", "label", "self", "back", "mid", "trunc"]), st.booleans()).map(
             lambda t: {"k": "chain", "n": t[0], "end": t[1], "rr": t[2]}),
     )
